@@ -8,7 +8,9 @@ RULE = ('small programs of 1-3 sender threads and 1-2 receiver threads (send / p
         'EchoPort, a byte-wise device double, the IOPort wrapper and MultiPort, run on REAL threads under a deterministic scheduler '
         'that switches only at shared accesses (lock acquire/release, deque test/pop/append, one byte written to the wire): every '
         'schedule with <= 2 preemptions (quick) / <= 3 (thorough) is enumerated, plus seeded random schedules; EchoPort executions are '
-        'replayed through the Lean interleaving model step for step. Distinct by (program, schedule); non-trivial = at least one '
+        'replayed through the Lean interleaving model step for step, and the event trace (lock acquire/release, deque test/pop/append, '
+        'wire bytes) of EVERY execution of EVERY port kind is replayed through the Lean locking-discipline machine, which must accept every '
+        'event and end with the same queue contents, append order and pop order as the real objects. Distinct by (program, schedule); non-trivial = at least one '
         'preemption')
 
 NAMES = ['T0', 'T1', 'T2', 'T3', 'T4']
@@ -28,7 +30,7 @@ def make_world(kind, initial):
         class WireDev(P.BaseOutput):
             def _send(self, msg):
                 for b in msg.bytes():
-                    sched.yp('write')
+                    sched.yp('write', ctx['wire'])
                     ctx['wire'].append(b)
         p = sched.instrument(WireDev('w'))
     elif kind == 'ioport':
@@ -38,7 +40,7 @@ def make_world(kind, initial):
         class WireOut(P.BaseOutput):
             def _send(self, msg):
                 for b in msg.bytes():
-                    sched.yp('write')
+                    sched.yp('write', ctx['wire'])
                     ctx['wire'].append(b)
         i = sched.instrument(DevIn('i'))
         o = sched.instrument(WireOut('o'))
@@ -68,6 +70,7 @@ def make_world(kind, initial):
         p._parser_lock = sched.SLock(p._parser_lock, True)
         d = sched.SDeque()
         p._parser.messages = d
+        ctx['guards'] = [(d, p._parser_lock)]
         return p, ctx
     else:
         raise KeyError(kind)
@@ -75,6 +78,16 @@ def make_world(kind, initial):
     if kind != 'wire':
         import collections
         collections.deque.extend(target._messages, [portsim.msg_of(k) for k in initial])
+    # which lock guards which shared sequence (for the replay through the discipline machine)
+    if kind == 'echo':
+        ctx['guards'] = [(p._messages, p._lock)]
+    elif kind == 'wire':
+        ctx['guards'] = [(ctx['wire'], p._lock)]
+    elif kind == 'ioport':
+        ctx['guards'] = [(ctx['input']._messages, ctx['input']._lock), (ctx['wire'], o._lock)]
+    elif kind == 'multi':
+        ctx['guards'] = [(k._messages, k._lock) for k in ctx['kids']] + [(p._messages, p._lock)]
+    ctx['initial'] = {id(target._messages): list(initial)} if kind != 'wire' else {}
     return p, ctx
 
 
@@ -141,7 +154,7 @@ def execute(prog, prefix, default='same', rng=None):
         res = s.run(progs, choose)
         if s.stuck and '__deadlock__' not in res:
             raise HarnessTimeout('a granted thread neither yielded nor finished within 5 s')
-        return {'results': res, 'trace': s.trace, 'alts': info['alts'], 'ctx': ctx, 'port': port, 'records': records,
+        return {'results': res, 'trace': s.trace, 'trace_ev': s.trace_ev, 'alts': info['alts'], 'ctx': ctx, 'port': port, 'records': records,
                 'decisions': [NAMES.index(p) for (_e, _l, p) in info['alts']]}
     finally:
         P.random.shuffle, P.sleep = old_shuffle, old_sleep
@@ -268,6 +281,61 @@ def model_request(prog, ob):
     return 'conc progs=%s q=%s sched=%s' % (progs, ','.join(map(str, initial)) or '-', ','.join(map(str, ob['decisions'])) or '-')
 
 
+def _val(x):
+    return x if isinstance(x, int) else portsim.ident(x)
+
+
+def disc_lines(prog, ob):
+    """The execution as an event trace for the Lean discipline machine, and what was observed on the real objects.
+    Every kind of port: locks and shared sequences are numbered in the order of ctx['guards']."""
+    ctx = ob['ctx']
+    guards = ctx.get('guards')
+    if not guards:
+        return None, None
+    qidx = {id(q): i for i, (q, _l) in enumerate(guards)}
+    locks = {}
+    for _q, l in guards:
+        if id(l) not in locks:
+            locks[id(l)] = len(locks)
+    tix = {n: i for i, n in enumerate(NAMES)}
+    cursor = {}
+    evs = []
+    for tid, act, obj in ob['trace_ev']:
+        t = tix.get(tid)
+        if t is None:
+            continue
+        if act in ('acq', 'rel'):
+            if id(obj) in locks:
+                evs.append('%d:%s:%d' % (t, 'a' if act == 'acq' else 'r', locks[id(obj)]))
+        elif act == 'bool' and id(obj) in qidx:
+            evs.append('%d:t:%d' % (t, qidx[id(obj)]))
+        elif act == 'popleft' and id(obj) in qidx:
+            evs.append('%d:p:%d' % (t, qidx[id(obj)]))
+        elif act in ('append', 'write') and id(obj) in qidx:
+            k = cursor.get(id(obj), 0)
+            cursor[id(obj)] = k + 1
+            seq = obj if isinstance(obj, list) else obj.__dict__.get('apps', [])
+            if k < len(seq):
+                evs.append('%d:w:%d:%d' % (t, qidx[id(obj)], _val(seq[k]) % (1 << 40)))
+    init = ctx.get('initial', {})
+    import collections
+    q0 = '/'.join('%d:%s' % (i, '.'.join(str(k) for k in init.get(id(q), []))) for i, (q, _l) in enumerate(guards))
+    g = ','.join('%d:%d' % (i, locks[id(l)]) for i, (_q, l) in enumerate(guards))
+    req = 'disc n=%d g=%s q=%s ev=%s' % (len(guards), g, q0 or '-', ','.join(evs) or '-')
+    fault = 1 if any(st == 'raised' and isinstance(v, IndexError) for st, v in ob['results'].values()) else 0
+    parts = []
+    for i, (q, _l) in enumerate(guards):
+        if isinstance(q, list):
+            cur, apps, pops = list(q), list(q), []
+        else:
+            cur = [_val(m) % (1 << 40) for m in collections.deque.__iter__(q)]
+            apps = [_val(m) % (1 << 40) for m in q.__dict__.get('apps', [])]
+            pops = [_val(m) % (1 << 40) for m in q.__dict__.get('pops', [])]
+        sent = list(init.get(id(q), [])) + apps
+        parts.append(' | %d: q=%s sent=%s recv=%s' % (i, ','.join(map(str, cur)), ','.join(map(str, sent)), ','.join(map(str, pops))))
+    return req, 'viol=0 fault=%d' % fault + ''.join(parts)
+
+
 def explore(prog, bound, limit):
     """All schedules with at most `bound` preemptions (stateless DFS with re-execution)."""
     out = []
@@ -346,12 +414,14 @@ def _summarise(prog, ob, mode):
     kind = prog[0]
     aligned = kind == 'echo' and all(c[0] in ('send', 'poll') for calls in prog[2] for c in calls)
     npre = sum(1 for en, last, pick in ob['alts'] if last in en and pick != last)
+    dreq, dline = disc_lines(prog, ob)
     return {'fail': fail, 'decisions': ob['decisions'], 'mode': mode, 'preemptions': npre,
-            'req': model_request(prog, ob) if aligned else None, 'line': model_line(prog, ob) if aligned else None}
+            'req': model_request(prog, ob) if aligned else None, 'line': model_line(prog, ob) if aligned else None,
+            'dreq': dreq, 'dline': dline}
 
 
 def run(ck):
-    ck.prepare_lean()
+    ck.prepare_lean(extra_targets=['MidoProofs.Props.C10b'])
     ck.run_corpus(oracle)
     progs = gen_programs(ck)
     bound = 2 if ck.tier == 'quick' else 3
@@ -364,6 +434,7 @@ def run(ck):
            [(p, 0, 1, nrand, ck.seed * 1000 + 500 + i) for i, p in enumerate(extra)]
     res = pool_map(run_program, jobs)
     reqs, impl = [], []
+    dreqs, dimpl = [], []
     for (prog, *_), outs in zip(jobs, res):
         ck.count('programs:' + prog[0])
         for o in outs:
@@ -375,14 +446,21 @@ def run(ck):
             if o['req']:
                 reqs.append(o['req'])
                 impl.append(o['line'])
+            if o.get('dreq'):
+                dreqs.append(o['dreq'])
+                dimpl.append(o['dline'])
+                ck.count('discipline_replay:' + prog[0])
     ck.compare('ports_conc', reqs, impl, ck.driver.run(reqs))
+    ck.compare('lock_discipline', dreqs, dimpl, ck.driver.run(dreqs))
     ck.sample({'prog': repr(progs[1]), 'schedule': res[1][5]['decisions'] if len(res[1]) > 5 else res[1][0]['decisions']})
     ck.exhaustive['schedules with <= %d preemptions of each listed program (capped at %d per program)' % (bound, limit)] = True
     return ck.finish(RULE, assumptions=[
         'single deque operations and RLock acquire/release are atomic under the GIL; pre-emption inside one Python statement '
         'between shared accesses is not explored (everything between two shared accesses is thread-local)',
-        'the Lean theorems cover the lock-protected EchoPort-like port (send / poll) for any number of threads and any schedule; the device '
-        'double, IOPort and MultiPort rest on the schedule enumeration with the oracle'])
+        'the interleaving theorems cover the lock-protected EchoPort-like port (send / poll) for any number of threads and any schedule; the '
+        'discipline theorems cover any composition of locks and queues (IOPort, MultiPort, ParserQueue, the wire) for any number of threads and '
+        'any schedule PROVIDED every event respects the discipline - that the real code does is observed on every explored execution '
+        '(viol=0), not proved'])
 
 
 def oracle(case):
